@@ -1147,7 +1147,9 @@ def gen_e2e09_acq(rng, tier):
     return {"kind": "e2e09_acq", "seed": rng.randrange(10 ** 9), "d": rng.choice([1, 2, 3]),
             "n": rng.choice([3, 4, 6, 9]), "pending": rng.choice([0, 0, 1, 2]), "nf": rng.choice([1, 2, 4]),
             "ard": rng.random() < 0.5, "acq": rng.choice(["ei", "ei", "lcb", "cei", "eipu"]), "normalize": rng.random() < 0.7,
-            "shuffled": rng.random() < 0.5}
+            "shuffled": rng.random() < 0.5,
+            # posterior samples of the objective's / the second output's surrogate (two-output acquisition functions)
+            "nsamp": rng.choice([[1, 1], [1, 1], [3, 1], [1, 2], [2, 3], [2, 2]])}
 
 
 def run_e2e09_acq(spec):
@@ -1319,19 +1321,26 @@ def _run_two_output_acq(spec, rng, hist, hp, Xt, d, n):
         Ys[0][sec] = -0.2  # at least one feasible observation: a feasible incumbent exists
     state = create_tuning_job_state(hp_ranges=hp, cand_tuples=list(Xt), metrics=Ys)
     preds = {}
-    for name in (INTERNAL_METRIC_NAME, sec):
-        gpm = GaussianProcessRegression(kernel=Matern52(d, ARD=spec["ard"]), random_seed=spec["seed"] % 1000)
-        params = gpm.get_params()
-        for key in params:
-            if key == "noise_variance":
-                params[key] = math.exp(rng.uniform(math.log(1e-3), math.log(0.3)))
-            elif key.startswith("kernel_inv_bw"):
-                params[key] = math.exp(rng.uniform(-1, 1.2))
-            elif key == "kernel_covariance_scale":
-                params[key] = math.exp(rng.uniform(-1, 1))
-        gpm.set_params(params)
-        est = GaussProcEmpiricalBayesEstimator(active_metric=name, gpmodel=gpm, num_fantasy_samples=1, normalize_targets=spec["normalize"])
-        preds[name] = est.fit_from_state(state, update_params=False)
+    # number of posterior samples of the surrogate's parameters per output (1 = empirical Bayes; > 1 = what an MCMC fit gives:
+    # `predict` / `current_best` / `backward_gradient` are lists over the samples); the two outputs may have DIFFERENT numbers
+    nsamp = spec.get("nsamp") or [1, 1]
+    for name, ns in zip((INTERNAL_METRIC_NAME, sec), nsamp):
+        parts = []
+        for _s in range(ns):
+            gpm = GaussianProcessRegression(kernel=Matern52(d, ARD=spec["ard"]), random_seed=spec["seed"] % 1000)
+            params = gpm.get_params()
+            for key in params:
+                if key == "noise_variance":
+                    params[key] = math.exp(rng.uniform(math.log(1e-3), math.log(0.3)))
+                elif key.startswith("kernel_inv_bw"):
+                    params[key] = math.exp(rng.uniform(-1, 1.2))
+                elif key == "kernel_covariance_scale":
+                    params[key] = math.exp(rng.uniform(-1, 1))
+            gpm.set_params(params)
+            est = GaussProcEmpiricalBayesEstimator(active_metric=name, gpmodel=gpm, num_fantasy_samples=1, normalize_targets=spec["normalize"])
+            parts.append(est.fit_from_state(state, update_params=False))
+        preds[name] = parts[0] if ns == 1 else SamplesOfPredictors(parts)
+    hist["acq_samples:%dx%d" % tuple(nsamp)] = 1
     order = [sec, INTERNAL_METRIC_NAME] if spec.get("shuffled") else [INTERNAL_METRIC_NAME, sec]
     pdict = {k: preds[k] for k in order}
     hist["acq_dict_order:" + ("active-second" if spec.get("shuffled") else "active-first")] = 1
@@ -1371,6 +1380,143 @@ def _run_two_output_acq(spec, rng, hist, hp, Xt, d, n):
                              f"central differences (error estimate {err:.2e})", {"spec": spec, "x": x.tolist()}))
     hist["acq_points_checked"] = npts
     return {"lines": [], "monitor": mon, "meta": {"hist": hist, "nontrivial": npts > 0, "dev": {"c09:acq-gradient": worst}}}
+
+
+from syne_tune.optimizer.schedulers.searchers.bayesopt.models.model_base import BasePredictor as _BasePredictor  # noqa: E402
+
+
+def gen_e2e09_indep(rng, tier):
+    return {"kind": "e2e09_indep", "seed": rng.randrange(10 ** 9), "d": rng.choice([1, 2, 3]),
+            "rungs": rng.choice([[1, 3, 9], [1, 2, 4, 8], [2, 4], [1, 3]]), "acq": rng.choice(["ei", "lcb"]),
+            "normalize": rng.choice(["data", "data", "none", "negative-mean"]), "ard": rng.random() < 0.6}
+
+
+def run_e2e09_indep(spec):
+    """acquisition gradient for the multi-fidelity surrogate with one independent GP per rung level (`gp_independent`,
+    IndependentGPPerResourceModel): the gradient w.r.t. the encoded configuration (the resource coordinate is fixed) returned
+    by compute_acq_with_gradient is the derivative of compute_acq at every rung level; target normalisation with mean != std"""
+    from syne_tune.config_space import uniform
+    from syne_tune.optimizer.schedulers.searchers.utils.hp_ranges_factory import make_hyperparameter_ranges
+    from syne_tune.optimizer.schedulers.searchers.bayesopt.datatypes.common import INTERNAL_METRIC_NAME
+    from syne_tune.optimizer.schedulers.searchers.bayesopt.datatypes.tuning_job_state import TuningJobState
+    from syne_tune.optimizer.schedulers.searchers.bayesopt.gpautograd.independent.gpind_model import IndependentGPPerResourceModel
+    from syne_tune.optimizer.schedulers.searchers.bayesopt.models.gp_model import GaussProcPredictor
+    rng = random.Random(spec["seed"])
+    d, rungs = spec["d"], spec["rungs"]
+    r_min, r_max = rungs[0], rungs[-1]
+    hist = {"e2e09_indep": 1, "indep_normalize:" + spec["normalize"]: 1, "indep_acq:" + spec["acq"]: 1}
+
+    def enc_r(r):
+        return (r - r_min + 0.5) / (r_max - r_min + 1)
+
+    feats, raw = [], []
+    shift = -3.0 if spec["normalize"] == "negative-mean" else 0.4
+    for j, r in enumerate(rungs):
+        for _ in range(max(3, 8 - 2 * j)):
+            x = [rng.uniform(0.05, 0.95) for _ in range(d)]
+            raw.append(shift + 0.3 * (x[0] - 0.4) ** 2 + 0.2 * math.sin(3.0 * x[-1]) + 0.3 / r + 0.02 * rng.gauss(0, 1))
+            feats.append(x + [enc_r(r)])
+    features, raw = np.array(feats), np.array(raw)
+    if spec["normalize"] == "none":
+        mean, std = 0.0, 1.0
+    else:
+        mean, std = float(np.mean(raw)), float(np.std(raw))
+    targets = ((raw - mean) / std).reshape((-1, 1))
+    gpmodel = IndependentGPPerResourceModel(kernel=Matern52(dimension=d, ARD=spec["ard"], has_covariance_scale=False),
+                                            mean_factory=lambda resource: ScalarMeanFunction(),
+                                            resource_attr_range=(r_min, r_max), random_seed=spec["seed"] % 1000)
+    gpmodel.create_likelihood(list(rungs))
+    params = gpmodel.get_params()
+    for key in params:
+        if key.startswith("kernel_inv_bw"):
+            params[key] = math.exp(rng.uniform(-0.5, 1.2))
+        elif key == "noise_variance":
+            params[key] = math.exp(rng.uniform(math.log(1e-3), math.log(0.1)))
+        elif key.startswith("covariance_scale"):
+            params[key] = math.exp(rng.uniform(-0.7, 0.7))
+    gpmodel.set_params(params)
+    gpmodel.recompute_states({"features": features, "targets": targets})
+    hp = make_hyperparameter_ranges({"x%d" % i: uniform(0.0, 1.0) for i in range(d)})
+    predictor = GaussProcPredictor(state=TuningJobState.empty_state(hp), gpmodel=gpmodel, fantasy_samples=[],
+                                   active_metric=INTERNAL_METRIC_NAME, normalize_mean=mean, normalize_std=std)
+    mon, worst, npts = [], 0.0, 0
+    acq = AF.LCBAcquisitionFunction(predictor, kappa=rng.choice([0.5, 1.5])) if spec["acq"] == "lcb" else None
+    for r in rungs:
+        for _ in range(2):
+            x = np.array([rng.uniform(0.08, 0.92) for _ in range(d)] + [enc_r(r)])
+            if acq is None:
+                # EI needs the incumbent: taken as the smallest (normalised back) target
+                class _Best:  # noqa
+                    pass
+                a = AF.EIAcquisitionFunction.__new__(AF.EIAcquisitionFunction)
+                AF.EIAcquisitionFunction.__init__(a, predictor)
+                a._get_current_bests_internal = lambda predictor_, _b=float(np.min(raw)): _ConstBest(_b)
+                use = a
+            else:
+                use = acq
+            fval, grad = use.compute_acq_with_gradient(x.copy())
+            alone = float(np.asarray(use.compute_acq(x.copy())).reshape(-1)[0])
+            if abs(alone) < 1e-7:
+                hist["indep_point_skipped_tail"] = hist.get("indep_point_skipped_tail", 0) + 1
+                continue
+            npts += 1
+            if not close([fval], [alone]):
+                mon.append(F("c09:value-with-gradient-differs", f"gp_independent, {spec['acq']}: compute_acq_with_gradient value {fval} != "
+                             f"compute_acq {alone} at rung level {r}", {"spec": spec}))
+                break
+
+            def f(v, use=use):
+                return float(np.asarray(use.compute_acq(v.copy())).reshape(-1)[0])
+            grad = np.asarray(grad, dtype=float).reshape(-1)
+            for i in range(d):
+                rr, err = richardson(f, x, i, 1e-4)
+                tol = fd_tol(grad[i], rr, err, abs(alone))
+                worst = max(worst, abs(grad[i] - rr) / tol)
+                if not abs(grad[i] - rr) <= tol:
+                    mon.append(F("c09:acq-gradient-not-derivative",
+                                 f"gp_independent (one GP per rung level), {spec['acq']}, targets normalised with mean {mean:.4g} std {std:.4g}: "
+                                 f"d acq / d x[{i}] = {grad[i]:.10g} at rung level {r}, {rr:.10g} by Richardson central differences "
+                                 f"(error estimate {err:.2e})", {"spec": spec, "x": x.tolist()}))
+    hist["acq_points_checked"] = npts
+    return {"lines": [], "monitor": mon[:3], "meta": {"hist": hist, "nontrivial": npts > 0, "dev": {"c09:acq-gradient": worst}}}
+
+
+class _ConstBest:
+    """CurrentBestProvider with a fixed incumbent"""
+
+    def __init__(self, b):
+        self.b = np.array([b])
+
+    def __call__(self, positions):
+        return self.b
+
+
+class SamplesOfPredictors(_BasePredictor):
+    """several real single-sample GP predictors (each with its own kernel parameters) presented as ONE predictor with that
+    many posterior samples, the way an MCMC-fitted surrogate presents itself: lists over the samples"""
+
+    def __init__(self, parts):
+        super().__init__(state=parts[0].state, active_metric=parts[0].active_metric)
+        self.parts = parts
+
+    def keys_predict(self):
+        return self.parts[0].keys_predict()
+
+    def predict(self, inputs):
+        return [q for p in self.parts for q in p.predict(inputs)]
+
+    def hp_ranges_for_prediction(self):
+        return self.parts[0].hp_ranges_for_prediction()
+
+    def current_best(self):
+        return [q for p in self.parts for q in p.current_best()]
+
+    def predict_mean_current_candidates(self):
+        return [q for p in self.parts for q in p.predict_mean_current_candidates()]
+
+    def backward_gradient(self, input, head_gradients):
+        assert len(head_gradients) == len(self.parts)
+        return [p.backward_gradient(input, [hg])[0] for p, hg in zip(self.parts, head_gradients)]
 
 
 class StubOutput(Predictor):
